@@ -184,10 +184,15 @@ fn link_exact(r: &mut Rng, _i: u64) -> Vec<String> {
                 l.push("settle".into());
                 l.push(format!("flushstep {rn}"));
             }
-            // receiver consumes one message
+            // receiver consumes one message; sometimes with a bare recv_any, which declines the rest of a message
+            // that turns out to exceed max_data_size (the next receive call skips its remaining chunks)
             _ => {
                 recvs += 1;
-                l.push(format!("recvmsg r{recvs} {rn} p"));
+                if r.chance(1, 4) {
+                    l.push(format!("recvskip r{recvs} {rn} p"));
+                } else {
+                    l.push(format!("recvmsg r{recvs} {rn} p"));
+                }
                 l.push("settle".into());
                 l.push(format!("flushstep {rn}"));
             }
